@@ -79,6 +79,7 @@ type UniOpts struct {
 	ConfirmEpoch *uint32
 	NameChange   bool
 	NoConfirm    bool
+	PreCreate    []map[string]map[string]uint64
 }
 
 // NewUniverse builds a world with users and contracts spread over the shards and the standard
@@ -99,7 +100,7 @@ func NewUniverse(r *harness.Rand, o UniOpts) (*Universe, error) {
 	}
 	u.DNS = UserAddr(9, byte(o.Shards-1))
 	u.Actors = append(append([][]byte{}, u.Users...), u.Contracts...)
-	cfg := world.Config{NumShards: o.Shards, GasMap: o.GasMap, ActivationEpoch: o.Activation, EnableNameChg: o.NameChange, DNS: [][]byte{u.DNS}}
+	cfg := world.Config{NumShards: o.Shards, GasMap: o.GasMap, ActivationEpoch: o.Activation, EnableNameChg: o.NameChange, DNS: [][]byte{u.DNS}, PreCreate: o.PreCreate}
 	if !o.NoConfirm {
 		e := o.Activation
 		if o.ConfirmEpoch != nil {
@@ -187,13 +188,27 @@ func (u *Universe) Create(who, id []byte, qty int64, name, hash, attrs string, r
 	return u.N.Exec(SelfCall(vmcommon.BuiltInFunctionESDTNFTCreate, who, BigGas, args...))
 }
 
+// NumPad, when set, says how many leading zero bytes the next numeric argument of a transfer call
+// gets (non-minimal encodings are ordinary transaction input).
+var NumPad func() int
+
+func num(b []byte) []byte {
+	if NumPad == nil {
+		return b
+	}
+	if k := NumPad(); k > 0 {
+		return append(make([]byte, k), b...)
+	}
+	return b
+}
+
 func TransferCall(from, to, id []byte, amount *big.Int, gas uint64, extra ...[]byte) node.Call {
-	args := append([][]byte{id, amount.Bytes()}, extra...)
+	args := append([][]byte{id, num(amount.Bytes())}, extra...)
 	return node.Call{Func: vmcommon.BuiltInFunctionESDTTransfer, Caller: from, Recipient: to, Args: args, Gas: gas}
 }
 
 func NFTTransferCall(from, to, id []byte, nonce uint64, qty *big.Int, gas uint64, extra ...[]byte) node.Call {
-	args := append([][]byte{id, U64(nonce), qty.Bytes(), to}, extra...)
+	args := append([][]byte{id, num(U64(nonce)), num(qty.Bytes()), to}, extra...)
 	return node.Call{Func: vmcommon.BuiltInFunctionESDTNFTTransfer, Caller: from, Recipient: from, Args: args, Gas: gas}
 }
 
@@ -204,9 +219,9 @@ type Item struct {
 }
 
 func MultiCall(from, to []byte, items []Item, gas uint64, extra ...[]byte) node.Call {
-	args := [][]byte{to, Big(int64(len(items)))}
+	args := [][]byte{to, num(Big(int64(len(items))))}
 	for _, it := range items {
-		args = append(args, it.ID, U64(it.Nonce), it.Qty.Bytes())
+		args = append(args, it.ID, num(U64(it.Nonce)), num(it.Qty.Bytes()))
 	}
 	args = append(args, extra...)
 	return node.Call{Func: vmcommon.BuiltInFunctionMultiESDTNFTTransfer, Caller: from, Recipient: from, Args: args, Gas: gas}
